@@ -36,6 +36,19 @@ Definition bound_to_incarnation (st : state) : Prop :=
   (* the persisted records, against the persisted fabrics: what a restart would accept *)
   (forall r, In r (st_kvrecs st) -> rec_bound (st_kvfabs st) r).
 
+(** *** Nothing is left behind (the tight form): every session that is not expired - usable
+    now, or a slot reserved by a handshake that may still complete - sits on index 0 or on a
+    live fabric of its own incarnation; every resumption record and every subscription refers
+    to a live fabric of its own incarnation (not merely: if the index is populated). *)
+Definition live_at (fabs : list fabric) (i c : N) : Prop :=
+  exists f, fget i fabs = Some f /\ f_inc f = c.
+
+Definition nothing_left_behind (st : state) : Prop :=
+  (forall s, In s (st_sess st) -> s_exp s = false -> s_fab s <> 0 ->
+             live_at (st_fabs st) (s_fab s) (s_inc s)) /\
+  (forall r, In r (st_recs st) -> live_at (st_fabs st) (r_fab r) (r_inc r)) /\
+  (forall u, In u (st_subs st) -> live_at (st_fabs st) (u_fab u) (u_inc u)).
+
 (** incarnation [c] is gone from the node *)
 Definition gone (st : state) (c : N) : Prop :=
   c < st_ninc st /\ forall f, In f (st_fabs st) -> f_inc f <> c.
@@ -64,6 +77,18 @@ Definition sessions_ok (st : state) : bool :=
 Definition records_ok (st : state) : bool := forallb (rec_bound_b (st_fabs st)) (st_recs st).
 Definition subs_ok (st : state) : bool := forallb (sub_bound_b (st_fabs st)) (st_subs st).
 Definition kvrecords_ok (st : state) : bool := forallb (rec_bound_b (st_kvfabs st)) (st_kvrecs st).
+
+(** tight forms *)
+Definition live_at_b (fabs : list fabric) (i c : N) : bool := opt_eqb (cur_inc fabs i) c.
+Definition sessions_tight (st : state) : bool :=
+  forallb (fun s => s_exp s || (s_fab s =? 0) || live_at_b (st_fabs st) (s_fab s) (s_inc s))
+          (st_sess st).
+Definition records_tight (st : state) : bool :=
+  forallb (fun r => live_at_b (st_fabs st) (r_fab r) (r_inc r)) (st_recs st).
+Definition subs_tight (st : state) : bool :=
+  forallb (fun u => live_at_b (st_fabs st) (u_fab u) (u_inc u)) (st_subs st).
+Definition tight_b (st : state) : bool :=
+  sessions_tight st && records_tight st && subs_tight st.
 
 Definition bound_b (st : state) : bool :=
   sessions_ok st && records_ok st && subs_ok st && kvrecords_ok st.
@@ -140,14 +165,16 @@ Definition resume_ok (st : state) (k : N) : bool :=
   end.
 
 (** Verdict for one step: the clause numbers that fail.
-      1 usable-session-outlives-fabric     2 resumption-record-outlives-fabric
-      3 subscription-outlives-fabric       4 persisted-record-outlives-fabric
+      1 session-outlives-fabric (a usable session or a reserved handshake slot)
+      2 resumption-record-outlives-fabric  3 subscription-outlives-fabric
+        (1-3 in the tight form [nothing_left_behind]: the fabric must be there, same incarnation)
+      4 persisted-record-outlives-fabric (against the persisted fabrics)
       5 other-fabrics-affected             6 request-served-on-stale-session
       7 stale-record-resumed *)
 Definition step_verdict (pre : state) (o : op) (r : status) (post : state) : list N :=
-  (if sessions_ok post then [] else [1]) ++
-  (if records_ok post then [] else [2]) ++
-  (if subs_ok post then [] else [3]) ++
+  (if sessions_tight post then [] else [1]) ++
+  (if records_tight post then [] else [2]) ++
+  (if subs_tight post then [] else [3]) ++
   (if kvrecords_ok post then [] else [4]) ++
   (match removes pre o with
    | Some (i, pase) => if negb (status_ok r) || frame_ok i pase pre post then [] else [5]
@@ -155,7 +182,7 @@ Definition step_verdict (pre : state) (o : op) (r : status) (post : state) : lis
    end) ++
   (match o with
    | ORequest sid _ => if negb (status_ok r) || request_ok pre sid then [] else [6]
-   | OResume k => if negb (status_ok r) || resume_ok pre k then [] else [7]
+   | OResume k | OResumeBegin k => if negb (status_ok r) || resume_ok pre k then [] else [7]
    | _ => []
    end).
 
